@@ -83,6 +83,7 @@ impl Cfg {
             "C17" => "C17",
             "C19" => "C19",
             "C20" => "C20",
+            "C12" => "C12",
             _ => "C??",
         }
     }
@@ -293,6 +294,8 @@ impl RouterWorld {
             for (id, q) in f.waiters.iter() {
                 v.push((Some(*id), None, f.idx, q.3 .0));
             }
+            // (nobody, nobody): the head of this filter's log before the turn
+            v.push((None, None, f.idx, f.head));
         }
         for g in snap.graveyard.iter() {
             if let Some((reqs, _, _)) = &g.session {
@@ -311,8 +314,16 @@ impl RouterWorld {
         let Some(r) = self.router.as_ref() else { return };
         let snap = r.verif_snapshot();
         for f in snap.filters.iter() {
-            let ids: Vec<usize> = before.iter().filter(|p| p.2 == f.idx && p.3 < f.head).filter_map(|p| p.0).collect();
-            let names: Vec<String> = before.iter().filter(|p| p.2 == f.idx && p.3 < f.head).filter_map(|p| p.1.clone()).collect();
+            let mut ids: Vec<usize> = before.iter().filter(|p| p.2 == f.idx && p.3 < f.head).filter_map(|p| p.0).collect();
+            let mut names: Vec<String> = before.iter().filter(|p| p.2 == f.idx && p.3 < f.head).filter_map(|p| p.1.clone()).collect();
+            // the log discarded something during this turn: a subscription made in the same
+            // turn may have been overtaken as well (it had no cursor before the turn), so
+            // completeness is waived for every reader of this filter
+            let head_before = before.iter().find(|p| p.0.is_none() && p.1.is_none() && p.2 == f.idx).map(|p| p.3);
+            if head_before.map_or(f.head > 0, |h| f.head > h) {
+                ids = snap.connections.iter().map(|c| c.id).collect();
+                names = snap.graveyard.iter().map(|g| g.client_id.clone()).collect();
+            }
             if !ids.is_empty() || !names.is_empty() {
                 self.model.mark_lagged(&f.filter, &ids, &names);
             }
@@ -388,19 +399,20 @@ impl RouterWorld {
         let before = if self.pad > 0 { self.cursor_positions() } else { vec![] };
         let ran = self.with_router("run_inner", |r| r.verif_turn()).unwrap_or(false);
         self.turns += 1;
-        if self.pad > 0 {
-            // retention may have discarded what a subscription had not read yet: the model
-            // has to know before the clients look at what this turn sent them
-            #[cfg(feature = "snapshot")]
-            self.mark_overtaken(before);
-            self.update_lag();
-        }
         if ran || !self.outbox.is_empty() {
             // everything that was on the channel has been handled, in order
             let evs: Vec<ChanEv> = self.outbox.drain(..).collect();
             for ev in evs {
                 self.mirror_event(ev);
             }
+        }
+        if self.pad > 0 {
+            // retention may have discarded what a subscription had not read yet: the model
+            // (which has just learnt what the router consumed in this turn) has to know
+            // before the clients look at what the turn sent them
+            #[cfg(feature = "snapshot")]
+            self.mark_overtaken(before);
+            self.update_lag();
         }
         ran
     }
